@@ -76,8 +76,6 @@ Definition result_eqb (a b : result) : bool :=
 (** ** inputs the real entry points accept and the harness generates *)
 Definition wf_script_entry (x : Z * resp) : bool :=
   (0 <=? fst x) && match snd x with Fail e => negb (e =? 0) | _ => true end.
-Definition no_eintr (x : Z * resp) : bool :=
-  match snd x with Interrupted => false | Fail e => negb (e =? EINTR) | _ => true end.
 (** what the entry points accept *)
 Definition wf_input (c : cfg) : bool :=
   (1 <=? c_limit c) && (c_limit c <=? U64MAX) && in_u64 (c_t0 c)
@@ -86,20 +84,15 @@ Definition wf_input (c : cfg) : bool :=
      | SBuf _ => Nat.eqb (List.length (c_lens c)) 1
      | _ => true
      end.
-(** known finding [connect_eintr_spins]: a hooked connect whose inner call is interrupted never
-    returns (the retry branch does not call connect again and changes nothing) *)
-Definition no_connect_eintr (c : cfg) : bool :=
-  match c_shape c with
-  | SConnect => forallb no_eintr (firstn 1 (c_script c))
-  | _ => true
-  end.
-Definition wf (c : cfg) : bool := wf_input c && no_connect_eintr c.
+(** every accepted input is generated and judged (the former exclusion of an interrupted connect is
+    gone with the repair of [connect_eintr_spins]) *)
+Definition wf (c : cfg) : bool := wf_input c.
 
 (** known finding [nonblocking_fd_waits]: the model run requests a readiness wait on a descriptor
     the caller had put in non-blocking mode *)
 Definition defect_nonblocking_fd_waits (c : cfg) : bool :=
   c_nb c && match s_waits (snd (run_call c)) with [] => false | _ => true end.
-Definition no_defect (c : cfg) : bool := no_connect_eintr c && negb (defect_nonblocking_fd_waits c).
+Definition no_defect (c : cfg) : bool := negb (defect_nonblocking_fd_waits c).
 Definition moves_bytes (c : cfg) : bool :=
   match shape_dir (c_shape c) with Some _ => true | None => false end.
 
@@ -158,9 +151,9 @@ Definition ok_C17 (c : cfg) (r : result) : bool :=
   match r with RObs o => ok_C17_obs c o | _ => false end.
 
 (** ** C18 *)
-(** errno values with which the kernel says "this would block" *)
+(** errno values with which the kernel says "this would block" (EINTR is not one of them) *)
 Definition would_block (sh : shape) (e : Z) : bool :=
-  match sh with SConnect => in_progress e | _ => e =? EAGAIN end.
+  match sh with SConnect => connect_would_block e | _ => e =? EAGAIN end.
 
 (** no kernel call follows one that would have blocked *)
 Definition c18_step (sh : shape) (a : bool * bool) (q : request) : bool * bool :=
